@@ -384,6 +384,31 @@ theorem massesGet_stores (s : State) (i nt : Nat) (hi : i < s.syss.length) (hnt 
   · show ((putMass (putSym s i (symView s i nt)) i (massView s i nt)).sys i).masses = _
     rw [putMass_sys]; simp [hi1]
 
+/-- the `masses` setter measures against `System.natypes` *as a fresh read would report it* (`ntView`), not
+    against whatever the stale stored symbols happen to hold: up to `ntView` masses are accepted and
+    padded to `ntView`, more are refused — whether or not anything was read since the types grew. -/
+theorem massesSet_spec (s : State) (i nt : Nat) (hi : i < s.syss.length) (hnt : ntOf s i = .ok nt)
+    (v : List (Option Rat)) :
+    (v.length ≤ ntView s i nt → (massesSet i v s).1 = .ok () ∧
+      ((massesSet i v s).2.sys i).masses = padTo v (ntView s i nt) ∧
+      ((massesSet i v s).2.sys i).symbols = symView s i nt) ∧
+    (ntView s i nt < v.length → (massesSet i v s).1 = .error .value) := by
+  rw [massesSet_closed i v s nt hi hnt]
+  have hi1 : i < (putSym s i (symView s i nt)).syss.length := by rw [putSym_len]; exact hi
+  constructor
+  · intro hle
+    have : ¬ v.length > ntView s i nt := by omega
+    rw [if_neg this]
+    refine ⟨rfl, ?_, ?_⟩
+    · show ((putMass (putSym s i (symView s i nt)) i (padTo v (ntView s i nt))).sys i).masses = _
+      rw [putMass_sys]; simp [hi1]
+    · show ((putMass (putSym s i (symView s i nt)) i (padTo v (ntView s i nt))).sys i).symbols = _
+      rw [putMass_sys]; simp only [hi1, and_self, if_true]
+      rw [putSym_sys]; simp [hi]
+  · intro hgt
+    have : v.length > ntView s i nt := hgt
+    rw [if_pos this]
+
 /-! ## refusals: one lemma per refusal branch (nothing is defaulted) -/
 
 /-- `view[key] = value` with a first dimension that is neither 1 nor `natoms`: ValueError, nothing changes. -/
@@ -941,5 +966,7 @@ example : output exG (.composition 0) = .ok (.comp none) := by decide +kernel
 example : output (step exG (.symbolsSet 0 [some "Al", some "Ni", some "X", some "Al"])) (.composition 0)
     = .ok (.comp (some "Al2Ni")) := by decide +kernel
 example : output exG (.sysAtypes 0) = .ok (.nats [1, 2, 3, 4]) := by decide +kernel
+example : output exG (.massesSet 0 [some 1, some 2, some 3, some 4]) = .ok .unit := by decide +kernel
+example : output exG (.massesSet 0 [some 1, some 2, some 3, some 4, some 5]) = .error .value := by decide +kernel
 
 end Atomman.C06
